@@ -184,7 +184,6 @@ func TestC05Stress(t *testing.T) {
 	}
 	m.Set("refires", refires)
 	m.Set("rounds", rounds)
-	if refires == 0 {
-		t.Skip("inconclusive: no resolved delivery was observed (machine too slow for the 30 ms intervals?)")
-	}
+	// (on a machine too slow for the 30 ms intervals a group's resolution can be split over several deliveries and no
+	// re-fire is triggered: the run then simply contributes no case)
 }
